@@ -127,6 +127,8 @@ pub struct Engine {
     pub sq_dropped: bool,
     /// io_uring_enter(GETEVENTS) calls seen so far (C05 rule in `ring_poll`).
     pub getevents_seen: u64,
+    /// Quiescence was cut short: a blocking poll would never have returned.
+    pub stuck: bool,
     pub sq_entries: u32,
     pub faults_on: bool,
     pub closes: Vec<Task>,
@@ -304,6 +306,7 @@ impl Engine {
             ring_alive: true,
             sq_dropped: false,
             getevents_seen: 0,
+            stuck: false,
             sq_entries: sq,
             faults_on: true,
             closes: Vec::new(),
@@ -894,14 +897,6 @@ impl Engine {
             }
         }
         self.getevents_seen = kernel::with(|k| k.rings[self.ring_id].getevents_enters);
-        trace(&[tag::RINGPOLL, u32::from(res.is_err())]);
-        ev!("h ring.poll({timeout:?}) -> {res:?}");
-        if let Err(e) = &res {
-            let code = e.raw_os_error().unwrap_or(0);
-            if code != libc::EBUSY && code != libc::EINTR && code != libc::EAGAIN {
-                violation("panic", format!("Ring::poll failed: {e}"));
-            }
-        }
         self.check_wakeups();
     }
 
@@ -1175,6 +1170,13 @@ impl Engine {
                 _ => tape::choose(site::EDIT, max as u32 + 2) as usize,
             }
         };
+        // The whole slot (data and spare capacity) as it is before the call.
+        let slot_before: Vec<u8> = {
+            let hb = &self.bufs[i];
+            // SAFETY: the slot is `cap` bytes of pool memory written by the stub
+            // (data or canary) and owned by this ReadBuf.
+            unsafe { std::slice::from_raw_parts(hb.base as *const u8, cap) }.to_vec()
+        };
         let hb = &mut self.bufs[i];
         let what: String;
         // Run the call on both; a panic on one side must be a panic on the other.
@@ -1322,6 +1324,22 @@ impl Engine {
                     hb.model
                 ),
             );
+        } else if hb.buf.as_slice().as_ptr() as usize == hb.base {
+            // Behind the new length nothing may have changed: an edit moves or
+            // writes bytes of the buffer, it never brings bytes in from
+            // elsewhere (e.g. by copying too much and reading the next slot).
+            let new_len = hb.model.len();
+            // SAFETY: as above.
+            let slot_after = unsafe { std::slice::from_raw_parts(hb.base as *const u8, cap) };
+            if let Some(off) = (new_len..cap).find(|k| slot_after[*k] != slot_before[*k]) {
+                violation(
+                    "readbuf.spare-clobbered",
+                    format!(
+                        "{what} on a buffer of {len} bytes (capacity {cap}) changed byte {off} of its slot, behind the new length {new_len}: {:#x} -> {:#x} (bytes brought in from outside the buffer)",
+                        slot_before[off], slot_after[off]
+                    ),
+                );
+            }
         }
     }
 
@@ -1632,6 +1650,9 @@ impl Engine {
             }
         }
         let bound = 6 * (self.tasks.len() + 4);
+        // A third of the runs: the executor blocks in Ring::poll(None) once
+        // nothing is runnable, like a real one does.
+        let blocking_polls = tape::chance(site::STEP, 1, 3);
         for _round in 0..bound {
             // Poll every task the executor is allowed to poll.
             let mut progressed = false;
@@ -1659,7 +1680,30 @@ impl Engine {
                     k.complete_kid(r, kid, true);
                 }
             });
-            self.ring_poll(Some(Duration::ZERO));
+            let unfinished = self.tasks.iter().any(|t| !t.dropped && !t.finished);
+            if blocking_polls && unfinished && self.ring_alive {
+                let stuck_before = kernel::with(|k| k.stuck_waits);
+                // Who waits for queue space without having been woken, before
+                // the call (wake-ups a10 makes after the "return" of a call
+                // that never returns do not count).
+                let waiting: Vec<u32> = self
+                    .tasks
+                    .iter()
+                    .filter(|t| !t.dropped && !t.finished && t.polled && t.last_pending && t.blocked_on_sq && !t.wakers.fired())
+                    .map(|t| t.id)
+                    .collect();
+                self.ring_poll(None);
+                if kernel::with(|k| k.stuck_waits) != stuck_before {
+                    // A real kernel would never have returned from that call.
+                    if !report::has_violation() {
+                        self.blocked_forever(&waiting);
+                    }
+                    self.stuck = true;
+                    return;
+                }
+            } else {
+                self.ring_poll(Some(Duration::ZERO));
+            }
             let pending = self
                 .tasks
                 .iter()
@@ -1735,6 +1779,34 @@ impl Engine {
                 );
             }
         }
+    }
+
+    /// `Ring::poll(None)` was called with nothing runnable and the kernel has
+    /// nothing that could ever complete: the executor sleeps for ever. That is
+    /// a10's doing if a future is waiting for submission queue space that is
+    /// available (C03): nobody will ever wake it.
+    fn blocked_forever(&mut self, waiting_ids: &[u32]) {
+        let room = kernel::with(|k| {
+            let r = &k.rings[self.ring_id];
+            r.sq_entries.saturating_sub(r.sq_pending())
+        });
+        let waiting: Vec<&Task> = self.tasks.iter().filter(|t| waiting_ids.contains(&t.id)).collect();
+        if room == 0 || waiting.is_empty() {
+            return;
+        }
+        // a10 hands out one wake-up per free slot; a wake-up that went to a
+        // future which was dropped in the meantime is wasted.
+        let wasted = self.tasks.iter().any(|t| t.dropped && t.wakers.fired());
+        violation(
+            "wake.lost-queue-space.blocking-poll",
+            format!(
+                "Ring::poll(None) blocks for ever (nothing is in flight) although the submission queue has room for {room} and {} future(s) wait for queue space (first: {} op#{}){}",
+                waiting.len(),
+                waiting[0].name,
+                waiting[0].id,
+                if wasted { "; an earlier wake-up for a free slot went to a future that had been dropped" } else { "" }
+            ),
+        );
     }
 
     /// Drop everything that is left. With `shuffle` the groups {tasks,
